@@ -6,6 +6,7 @@
 package verifc04
 
 import (
+	"encoding/base64"
 	"encoding/json"
 	"net/http"
 	"net/http/httptest"
@@ -65,6 +66,27 @@ func Mint(ts TokenSpec, now time.Time) string {
 		var ss string
 		ss, err = t.SigningString()
 		if err == nil {
+			var sig string
+			sig, err = jwt.SigningMethodHS256.Sign(ss, []byte(ts.Secret))
+			s = ss + "." + sig
+		}
+	case "RS384junk", "RS512junk", "ES256junk", "ES384junk", "PS256junk", "PS512junk":
+		// a non-HMAC alg header over the same claims; the signature bytes are an HS256 mac (junk for that family)
+		t := jwt.NewWithClaims(jwt.GetSigningMethod(strings.TrimSuffix(ts.Alg, "junk")), claims)
+		var ss string
+		ss, err = t.SigningString()
+		if err == nil {
+			var sig string
+			sig, err = jwt.SigningMethodHS256.Sign(ss, []byte(ts.Secret))
+			s = ss + "." + sig
+		}
+	case "hs256lower", "noalg", "HS256typ":
+		// a correct HS256 mac under a header whose alg is spelt "hs256" / absent / (control) accompanied by another typ
+		var full string
+		full, err = jwt.NewWithClaims(jwt.SigningMethodHS256, claims).SignedString([]byte(ts.Secret))
+		if err == nil {
+			hdr := map[string]string{"hs256lower": `{"alg":"hs256","typ":"JWT"}`, "noalg": `{"typ":"JWT"}`, "HS256typ": `{"alg":"HS256","typ":"at+jwt"}`}[ts.Alg]
+			ss := base64.RawURLEncoding.EncodeToString([]byte(hdr)) + "." + strings.Split(full, ".")[1]
 			var sig string
 			sig, err = jwt.SigningMethodHS256.Sign(ss, []byte(ts.Secret))
 			s = ss + "." + sig
